@@ -34,6 +34,7 @@ const (
 	KRelay           = "relay"    // F-world relayer step
 	KConsumerTx      = "consumer_tx"
 	KRawPacket       = "raw_packet"
+	KProbe           = "probe_handshake" // call a channel-handshake callback on a branched context (no state change)
 	KMulti           = "multi_tx" // one tx carrying the messages of all sub-actions (same sender)
 )
 
@@ -65,6 +66,18 @@ type Action struct {
 	Pkt   *PacketSpec   `json:"pkt,omitempty"`
 	Fee   string        `json:"fee,omitempty"`
 	Sub   []Action      `json:"sub,omitempty"`
+	Probe *ProbeSpec    `json:"probe,omitempty"`
+}
+
+// ProbeSpec are the parameters of a handshake-callback probe.
+type ProbeSpec struct {
+	Side     string   `json:"side"`     // "provider" or a consumer id
+	Callback string   `json:"callback"` // try | init | ack
+	Order    string   `json:"order"`    // ordered | unordered | none
+	Port     string   `json:"port"`
+	CpPort   string   `json:"cp_port"`
+	Version  string   `json:"version"`
+	Hops     []string `json:"hops"`
 }
 
 func (a Action) String() string {
